@@ -352,6 +352,7 @@ var errBranchExceptions = map[string]string{
 func checkGenericErrorDiscipline(c *Ctx, pkgs ...string) {
 	n1 := checkValuesGuardedByErr(c, "errors-surface.value-guarded-by-error", nil, pkgs...)
 	n2 := checkErrBranchFails(c, "errors-surface.error-branch-fails", errBranchExceptions, pkgs...)
+	checkErrDisciplineAll(c, "errors-surface.every-error-tested", pkgs...)
 	if n1 == 0 || n2 == 0 {
 		c.fail("errors-surface.error-branch-fails", "instances", "-", "the generic error rules matched no site in "+joinStrings(pkgs))
 	}
@@ -366,4 +367,82 @@ func joinStrings(xs []string) string {
 		s += x
 	}
 	return s
+}
+
+// errDisciplineExceptions: the call sites of the anchored packages whose error is, by design, not surfaced (frozen
+// after reading each one; key = function:callee#ordinal).
+var errDisciplineExceptions = map[string]string{
+	"pkg/cafs.defaultFs.Has:cafs.LeavesForHash#1":                 "Has answers false for an object whose leaves cannot be resolved (incomplete object)",
+	"pkg/cafs.GenerateFile:errgroup.Group.Wait#1":                 "test-data generator, not in any data path",
+	"pkg/cafs.GenerateFile:os.File.Seek#1":                        "test-data generator, not in any data path",
+	"pkg/cafs.GenerateFile:os.File.Write#2":                       "test-data generator, not in any data path",
+	"pkg/core.DeleteBundle:storage.Store.Delete#1":                "delete index files until the first failure (bundle of unknown size): the loop stops on the first error by design (C10 clause d)",
+	"pkg/storage.MultiPut:storage.StoreCRC.PutCRC#1":              "a store flagged TolerateFailure may fail without failing the multi-write (by design)",
+	"pkg/storage.MultiPut:storage.Store.Put#1":                    "a store flagged TolerateFailure may fail without failing the multi-write (by design)",
+	"pkg/core.ListBundlesApply:core.doSelectBundles#1":            "assigned inside the collecting goroutine and read by the enclosing function after the channel closed (checked by the apply-errors sibling rule)",
+	"pkg/core.Diamond.implCommit:core.Diamond.uploadDescriptor#1": "after the bundle descriptor is written the commit is effective: a failed state write is logged (the diamond stays initialized; C12 ordering rules)",
+	"pkg/core.writeMemProfile:os.File.Close#1":                    "best-effort Close on a path that already failed or of a read-only handle",
+	"pkg/core.ListDiamondsApply:core.doSelectDiamonds#1":          "assigned inside the collecting goroutine and read by the enclosing function after the channel closed (checked by the apply-errors sibling rule)",
+	"pkg/core.PurgeBuildReverseIndex:core.kvStore.Close#1":        "best-effort Close on a path that already failed or of a read-only handle",
+	"pkg/core.scanContext:errgroup.Group.Wait#2":                  "second Wait on the failure path: the first error is already being returned",
+	"pkg/core.uploader:errgroup.Group.Wait#1":                     "Wait on the failure path: the causing error is returned instead",
+	"pkg/core.uploader:errgroup.Group.Wait#2":                     "Wait on the failure path: the causing error is returned instead",
+	"pkg/core.chunkUploader:core.dbReader.Close#1":                "best-effort Close on a path that already failed or of a read-only handle",
+	"pkg/core.PurgeDeleteUnused:core.kvStore.Close#1":             "best-effort Close on a path that already failed or of a read-only handle",
+	"pkg/core.scanBlob:errgroup.Group.Wait#2":                     "Wait on the failure path: the causing error is returned instead",
+	"pkg/core.checkAndDeleteKey:core.kvStore.Exists#1":            "a failed index lookup ends the step without deleting (returns before the Delete): the safe side of purge",
+	"pkg/core.checkAndDeleteKey:v4.Retry#2":                       "a blob whose deletion keeps failing is logged and counted as kept; purge goes on with the other keys (documented best effort)",
+	"pkg/core.copyIndexChunks:io.Closer.Close#1":                  "best-effort Close on a path that already failed or of a read-only handle",
+	"pkg/core.PurgeLock:fmt.Fprintf#1":                            "logging / formatting helper: no data-path effect",
+	"pkg/core.dbReader.iterateKV:core.kvIterator.Close#1":         "best-effort Close on a path that already failed or of a read-only handle",
+	"pkg/core.dbReader.Read:fmt.Fprintln#1":                       "logging / formatting helper: no data-path effect",
+	"pkg/core.Bundle.skipFile:storage.Store.Has#1":                "an unreadable file is treated as existing: the upload then fails loudly on it",
+	"pkg/core.RepoSquash:semver.ParseTolerant#1":                  "a tag that is not a semantic version is simply not a semver tag",
+	"pkg/core.ListSplitsApply:core.doSelectSplits#1":              "assigned inside the collecting goroutine and read by the enclosing function after the channel closed (checked by the apply-errors sibling rule)",
+	"pkg/core.kvPebble.Drop:pebble.Iterator.Close#1":              "best-effort Close on a path that already failed or of a read-only handle",
+	"pkg/core.kvPebble.Get:io.Closer.Close#1":                     "best-effort Close on a path that already failed or of a read-only handle",
+	"pkg/core.kvPebble.Exists:io.Closer.Close#1":                  "best-effort Close on a path that already failed or of a read-only handle",
+	"pkg/core.kvPebble.Compact:pebble.Iterator.Close#1":           "best-effort Close on a path that already failed or of a read-only handle",
+	"pkg/core.ListReposApply:core.doSelectRepos#1":                "assigned inside the collecting goroutine and read by the enclosing function after the channel closed (checked by the apply-errors sibling rule)",
+	"pkg/core.RenameRepo:core.RepoExists#2":                       "the error is the expected outcome (the new repo must NOT exist): tested with == nil",
+	"pkg/core.ListLabelsApply:core.doSelectLabels#1":              "assigned inside the collecting goroutine and read by the enclosing function after the channel closed (checked by the apply-errors sibling rule)",
+	"pkg/cafs.defaultFs.Put:io.Closer.Close#1":                    "best-effort Close on a path that already failed or of a read-only handle",
+	"pkg/cafs.defaultFs.Put:io.Closer.Close#2":                    "best-effort Close on a path that already failed or of a read-only handle",
+	"pkg/cafs.defaultFs.Has:storage.Store.Has#2":                  "a leaf whose presence cannot be checked makes the object incomplete (answers false)",
+	"pkg/cafs.chunkReader.Read:io.Closer.Close#1":                 "best-effort Close on a path that already failed or of a read-only handle",
+	"pkg/cafs.bytesFromRoot:io.Closer.Close#1":                    "best-effort Close on a path that already failed or of a read-only handle",
+	"pkg/cafs.GenerateFile:os.File.Write#1":                       "test-data generator, not in any data path",
+	"pkg/cafs.GenerateFile:os.File.Close#1":                       "test-data generator, not in any data path",
+	"pkg/fuse.ReadOnlyFS.MountReadOnly:zap.NewStdLogAt#1":         "logging / formatting helper: no data-path effect",
+	"pkg/fuse.ReadOnlyFS.MountReadOnly:zap.NewStdLogAt#2":         "logging / formatting helper: no data-path effect",
+	"pkg/fuse.MutableFS.MountMutable:zap.NewStdLogAt#1":           "logging / formatting helper: no data-path effect",
+	"pkg/fuse.MutableFS.MountMutable:zap.NewStdLogAt#2":           "logging / formatting helper: no data-path effect",
+	"pkg/fuse.MutableFS.Unmount:fuse.fsMutable.Commit#1":          "observation recorded in DESIGN.md: Unmount ignores the commit error (outside C18: the commit itself reports it through Commit())",
+	"pkg/fuse.fsMutable.Rename:fuse.fsMutable.deleteNSEntry#1":    "deleting the existing target: its only errors are ENOENT/ENOTEMPTY, both excluded by the preceding lookup (file target found)",
+	"pkg/fuse.fsMutable.WriteFile:afero.File.Stat#1":              "Stat of a file just written through the same handle",
+	"pkg/fuse.fsMutable.createNode:afero.Fs.Create#1":             "documented: the backing file creation is retried when the file is opened; logged",
+	"pkg/wal.defaultWAL:dlogger.GetLogger#1":                      "logging / formatting helper: no data-path effect",
+	"pkg/wal.New:storage.Store.Put#1":                             "create-if-absent of the token generator object: an existing object is the normal case",
+	"pkg/storage/localfs.New:dlogger.GetLogger#1":                 "logging / formatting helper: no data-path effect",
+}
+
+// checkErrDisciplineAll: every call of the packages that returns an error has that error tested on every path and
+// surfaced (returned, sent, stored) before the variable is overwritten or the function ends — the E-ERR reaching-definition
+// engine applied to all callees; the frozen exception table lists the sites that swallow by design.
+func checkErrDisciplineAll(c *Ctx, rule string, pkgs ...string) int {
+	n := 0
+	for _, pk := range pkgs {
+		for _, f := range c.P.FuncsIn(pk) {
+			if f.Decl.Body != nil {
+				n += checkErrDiscipline(c, rule, f, func(id string) bool {
+					switch id {
+					case "io.PipeReader.CloseWithError", "io.PipeWriter.CloseWithError", "io.PipeWriter.Close", "io.PipeReader.Close":
+						return false // documented to always return nil
+					}
+					return true
+				}, errDisciplineExceptions)
+			}
+		}
+	}
+	return n
 }
